@@ -45,7 +45,7 @@ def do_import(src):
         # the demos were written for /tmp/seedwt/<prop>; run a copy with paths rewritten to this worktree
         os.makedirs(os.path.join(wt, 'seeded', sid), exist_ok=True)
         dsrc = open(demo).read()
-        dsrc2 = re.sub(r'/tmp/seedwt/%s' % prop, wt, dsrc)
+        dsrc2 = re.sub(r'/tmp/seedwt2?/%s' % prop, wt, dsrc)
         open(os.path.join(wt, 'seeded', sid, 'demo.py'), 'w').write(dsrc2)
         demo_cmd = 'cd %s && %s -B seeded/%s/demo.py' % (wt, PY, sid)
         rc0, out0 = sh(demo_cmd, env=envv, timeout=600)
@@ -82,7 +82,7 @@ def do_import(src):
                 'how': 'fresh scratch worktree of /repo HEAD under /tmp: demo on clean tree, git apply patch.diff, full suite with PYTHONPATH=<wt>/py34, demo again, git checkout',
                 'demo_exit_clean_tree': rc0, 'demo_exit_patched_tree': rc1, 'suite_with_patch': outt.strip().splitlines()[-1] if outt.strip() else '',
                 'demo_output_patched_tail': out1[-600:],
-                'note': 'demo.py contains the absolute path of the worktree it was written in (/tmp/seedwt/%s); substitute the path of the tree under test' % prop,
+                'note': 'demo.py contains the absolute path of the worktree it was written in (/tmp/seedwt/%s or /tmp/seedwt2/%s); substitute the path of the tree under test' % (prop, prop),
             },
             'my_checks': {},
         }
